@@ -17,7 +17,7 @@ class C03(Prop):
     id = "C03"
     rule = (
         "plans: 1-8 sessions of mixed versions/security configs (sync: round-robin, async: concurrent tasks) sharing the process-wide buffer "
-        "pool, each issuing get/get_many/getnext/getbulk/fetch/refresh; histories include timeouts, decode errors, oversize failures and replies "
+        "pool (also: one real caller thread per sync session, parked and released one at a time by a seeded scheduler, so that several pooled buffers are outstanding at once), each issuing get/get_many/getnext/getbulk/fetch/refresh; histories include timeouts, decode errors, oversize failures and replies "
         "of every size. every emitted datagram is strictly decoded by the reference and compared with the API call and the session's "
         "credentials (v3 state tracked from accepted messages). non-trivial = >= 2 requests were emitted and at least one earlier call on the "
         "pool ended abnormally or received a reply; distinct = distinct abstract trace"
@@ -26,18 +26,18 @@ class C03(Prop):
     thorough_runs = 150000
 
     def families(self, tier):
-        return [("mixed-sync", 3), ("mixed-async", 2), ("single", 2)]
+        return [("mixed-sync", 3), ("mixed-async", 2), ("single", 2), ("mixed-threads", 2)]
 
     def expected_counters(self, tier):
-        return ["probe.tx-checked", "probe.long-form-length-emitted", "probe.after-timeout", "probe.after-decode-error", "probe.after-encode-error", "probe.getbulk-checked", "probe.v3-checked", "probe.v3-encrypted-checked"]
+        return ["probe.tx-checked", "probe.long-form-length-emitted", "probe.after-timeout", "probe.after-decode-error", "probe.after-encode-error", "probe.getbulk-checked", "probe.v3-checked", "probe.v3-encrypted-checked", "probe.three-threads-parked-holding-buffers", "sched.thread-yield"]
 
     def gen(self, rng, family, tier):
-        flavour = "async" if family == "mixed-async" else "sync"
+        flavour = "async" if family == "mixed-async" else ("threads" if family == "mixed-threads" else "sync")
         if family == "single":
             versions = [rng.choice(["v1", "v2c", "v3"])]
             flavour = rng.choice(["sync", "async"])
         else:
-            versions = [rng.choice(["v1", "v2c", "v3", "v3"]) for _ in range(rng.randint(2, 8 if tier == "thorough" else 5))]
+            versions = [rng.choice(["v1", "v2c", "v3", "v3"]) for _ in range(rng.randint(3 if family == "mixed-threads" else 2, 8 if tier == "thorough" else 5))]
         agent, sessions = multi_setup(rng, versions, ktypes=["localized", "master", "password"] if rng.random() < 0.3 else ["localized", "master"])
         rows = agent["mib"]
         ops = []
@@ -93,7 +93,7 @@ class C03(Prop):
         for cfg in sessions:
             cfg["timeout_ns"] = rng.choice([200_000_000, 500_000_000])
         agent["time_window"] = rng.random() < 0.7
-        return {"flavour": flavour, "agent": agent, "sessions": sessions, "ops": ops, "scripts": scripts, "latency_ns": gen.latency(rng, 1000, 2_000_000), "ready_order_seed": rng.randrange(2**31), "poison": rng.randrange(256), "rx_tail": rng.choice(["poison", "keep"])}
+        return {"flavour": flavour, "agent": agent, "sessions": sessions, "ops": ops, "scripts": scripts, "latency_ns": gen.latency(rng, 1000, 2_000_000), "ready_order_seed": rng.randrange(2**31), "poison": rng.randrange(256), "rx_tail": rng.choice(["poison", "keep"]), "sched_seed": rng.randrange(2**31), "yield_p": rng.choice([0.1, 0.3, 0.6])}
 
     def check(self, run):
         out = []
